@@ -162,3 +162,45 @@ def loop_vars_over_children(funcnode, spec, al):
                 if ch and norm.canon(n.value.value, al) in coll:
                     out[n.targets[0].id] = ch
     return out
+
+
+def instantiated_classes(prog):
+    """Classes constructed somewhere in the program (Name(...) / mod.Name(...) /
+    self.__class__(...) inside the class itself)."""
+    cache = getattr(prog, "_instantiated", None)
+    if cache is not None:
+        return cache
+    out = set()
+    for f in prog.functions.values():
+        for c in norm.calls_in(f.node, include_nested_defs=True):
+            fn = c.func
+            if isinstance(fn, (ast.Name, ast.Attribute)):
+                if norm.canon(fn) in ("self.__class__", "cls") and f.cls is not None:
+                    continue
+                r = prog.resolve_in_func(f, fn)
+                if r is not None and r[0] == "class":
+                    out.add(r[1].qualname)
+    # a class is also instantiated through self.__class__ if any subclass/itself is
+    prog._instantiated = out
+    return out
+
+
+def read_kind(prog, cls, depth=0):
+    """How a class's children relate to the current document, for guarded-read rules:
+    ("union", "a", "b") / ("leader", leader_attr, follower_attr) / None."""
+    k = is_active_kind(prog, cls)
+    if k == "union":
+        return ("union", "a", "b")
+    if k.startswith("leader:"):
+        lead = k.split(":")[1]
+        other = "b" if lead == "a" else "a"
+        return ("leader", lead, other)
+    if k == "wrapper" and depth < 2:
+        init = prog.lookup(cls, "__init__")
+        if init is not None:
+            for c in norm.calls_in(init.node):
+                if isinstance(c.func, (ast.Name, ast.Attribute)) and len(c.args) == 2:
+                    r = prog.resolve_in_func(init, c.func)
+                    if r is not None and r[0] == "class" and [norm.canon(a) for a in c.args] in (["a", "b"], ["self.a", "self.b"]):
+                        return read_kind(prog, r[1], depth + 1)
+    return None
